@@ -675,3 +675,86 @@ def native_checks(rng, tier):
     # ---- (3) contract monitor on _resolve_action_conflicts
     for rec in _monitor_checks(rng, tier):
         yield rec
+
+    # ---- (4) co-winners that stand inside a group with a catch label (or-group of starts)
+    yield _or_group_checks(rng, tier)
+
+
+def _or_group_checks(rng, tier):
+    """"flows that try to start an identical action all proceed and that action is started once" - also when the co-winner starts the
+    identical action as ONE ALTERNATIVE of an or-group (its head then carries a catch label, which is meant for losing heads only)."""
+    import contextlib
+    import io
+    from nemoguardrails.colang.v2_x.runtime.flows import FlowStatus, InternalEvent
+    from nemoguardrails.colang.v2_x.runtime.statemachine import run_to_completion
+    fails, n = [], 0
+    for same, other in [("X", "Y"), ("Y", "X"), ("hello", "bye")]:
+        for order in (0, 1):
+            for _spec in (0,):
+                alts = ['UtteranceBotAction(script="%s")' % same, 'UtteranceBotAction(script="%s")' % other]
+                if order:
+                    alts.reverse()
+                src = ('flow choosy\n  match UtteranceUserAction.Finished()\n  start %s or %s\n  start UtteranceBotAction(script="choosy went on")\n'
+                       '  match NeverHappens()\n\nflow direct\n  match UtteranceUserAction.Finished(final_transcript="go")\n'
+                       '  start UtteranceBotAction(script="%s") as $x\n  match $x.Finished()\n  start UtteranceBotAction(script="direct went on")\n\n'
+                       'flow main\n  start choosy\n  start direct\n  match NeverHappens()\n' % (alts[0], alts[1], same))
+                for k in range(4 if tier == "thorough" else 2):
+                    n += 1
+                    problem = None
+                    try:
+                        with contextlib.redirect_stdout(io.StringIO()):
+                            state = _fresh_state(src)
+                        import random as _r
+                        _r.seed(rng.randrange(10 ** 6))
+                        state = run_to_completion(state, InternalEvent(name="StartFlow", arguments={"flow_id": "main"}))
+                        state = run_to_completion(state, {"type": "UtteranceUserActionFinished", "final_transcript": "go"})
+                        started = [e.get("script") for e in state.outgoing_events if e["type"] == "StartUtteranceBotAction"]
+                        if started.count(same) != 1:
+                            problem = "the identical action %r was started %d times: %s" % (same, started.count(same), started)
+                        elif other in started:
+                            problem = "the losing alternative %r was started as well: %s" % (other, started)
+                        elif any(fs.status in (FlowStatus.STOPPED, FlowStatus.STOPPING) for fs in state.flow_id_states.get("direct", [])):
+                            problem = "the winner did not proceed: %s" % [fs.status.name for fs in state.flow_id_states.get("direct", [])]
+                        elif "choosy went on" not in started:
+                            problem = "the flow that starts the identical action inside an or-group did not proceed: started %s, status %s" % (
+                                started, [fs.status.name for fs in state.flow_id_states.get("choosy", [])])
+                    except Exception as ex:   # noqa
+                        problem = "%s: %s" % (type(ex).__name__, str(ex)[:200])
+                    if problem and len(fails) < 5:
+                        fails.append(dict(kind="post", function="run_to_completion: co-winner inside an or-group", file=SM, property_id="C05",
+                                          clause="flows that try to start an identical action all proceed and that action is started once",
+                                          inputs="program:\n%s\nevent UtteranceUserActionFinished(final_transcript='go')" % src, outcome=problem))
+    # the co-winner starts the identical action as the condition of a `when` (inside an open scope); when the shared action finishes
+    # the `when` branch runs - the scope must then close without a dangling action reference
+    for same in ("X", "hello"):
+        src = ('flow choosy\n  match UtteranceUserAction.Finished()\n  when UtteranceBotAction(script="%s")\n'
+               '    start UtteranceBotAction(script="choosy saw it finish")\n  or when UtteranceUserAction.Finished(final_transcript="other")\n'
+               '    start UtteranceBotAction(script="choosy other")\n  match NeverHappens()\n\nflow direct\n'
+               '  match UtteranceUserAction.Finished(final_transcript="go")\n  start UtteranceBotAction(script="%s") as $x\n  match $x.Finished()\n\n'
+               'flow main\n  start choosy\n  start direct\n  match NeverHappens()\n' % (same, same))
+        n += 1
+        problem = None
+        try:
+            with contextlib.redirect_stdout(io.StringIO()):
+                state = _fresh_state(src)
+            state = run_to_completion(state, InternalEvent(name="StartFlow", arguments={"flow_id": "main"}))
+            state = run_to_completion(state, {"type": "UtteranceUserActionFinished", "final_transcript": "go"})
+            started = [(e.get("script"), e.get("action_uid")) for e in state.outgoing_events if e["type"] == "StartUtteranceBotAction"]
+            if [x for x, _ in started] != [same]:
+                problem = "the identical action %r was not started exactly once: %s" % (same, [x for x, _ in started])
+            else:
+                state = run_to_completion(state, {"type": "UtteranceBotActionFinished", "action_uid": started[0][1], "final_script": same,
+                                                  "is_success": True})
+                later = [e.get("script") for e in state.outgoing_events if e["type"] == "StartUtteranceBotAction"]
+                errs = [e for e in state.outgoing_events if "Error" in e["type"]]
+                if "choosy saw it finish" not in later:
+                    problem = ("the flow that started the identical action inside a `when` did not proceed when the shared action finished: "
+                               "started %s, status %s, %s" % (later, [fs.status.name for fs in state.flow_id_states.get("choosy", [])], errs[:1]))
+        except Exception as ex:   # noqa
+            problem = "%s: %s" % (type(ex).__name__, str(ex)[:200])
+        if problem and len(fails) < 5:
+            fails.append(dict(kind="post", function="run_to_completion: co-winner inside an or-group", file=SM, property_id="C05",
+                              clause="flows that try to start an identical action all proceed and that action is started once",
+                              inputs="program:\n%s\nevents UtteranceUserActionFinished('go'), then Finished of the shared action" % src, outcome=problem))
+    return dict(function="run_to_completion: co-winner inside an or-group", evaluations=n, distinct=n, failures=len(fails), failing=fails,
+                bound="3 action pairs x 2 orders of the alternatives x %d tie-break seeds; one competitor with the more specific match; 2 programs with the identical action as a `when` condition (open scope), followed until the shared action finishes" % (4 if tier == "thorough" else 2))
